@@ -60,7 +60,7 @@ def gen_query(rng, G):
         toks.append(Tok("alias", o[0], o))
         if o[0] in ("depth", "mindepth"):
             toks.append(L(str(rng.randint(1, 3))))
-    if rng.random() < 0.8:
+    if rng.random() < 0.7:
         toks.append(W("where"))
         nc = rng.randint(1, 3)
         for i in range(nc):
@@ -85,6 +85,9 @@ def gen_query(rng, G):
                 toks += [A(fields["FSize"]), W("between"), L("3"), W("and"), L("50")]
             if br:
                 toks.append(Tok("close", pair=oc))
+    if rng.random() < 0.35:
+        # `group` is also a column name, so it is matched by text in three places of the parser
+        toks += [W("group"), W("by"), A(fields[rng.choice(["FName", "FExtension", "FIsDir"])])]
     if rng.random() < 0.5:
         toks += [W("order"), W("by"), A(fields[rng.choice(["FName", "FSize"])])]
         toks.append(Tok("opt", "asc") if rng.random() < 0.5 else W("desc"))
@@ -267,6 +270,6 @@ def run(ctx):
                 ctx.notes.append("%s: witness no longer fails; update KNOWN_FINDINGS.json" % k["id"])
     ctx.coverage.update(
         evaluations=len(cases) + nrows, distinct_nontrivial=len(st["distinct"]), traces_validated_against_impl=st["agreed"],
-        rule="valid queries from a typed generator (1-4 columns incl. functions/arithmetic, root options, WHERE with all operator kinds, brackets, ORDER BY, LIMIT, INTO) x renderings: split at every whitespace, random split sets (keeping the search root alone in its argument, see F23), EVERY alias of every aliased token one at a time (alias groups read from the regenerated Field / Function / Op / arithmetic tables), a case variant of every word, the other bracket style, optional tokens (select, commas, asc, () after an argument-less function) and random mixtures; the parsed Query of the real parser must be identical to that of the canonical rendering, and (sampled) the binary's output identical. non-trivial = a rendering that differs textually from the canonical one",
+        rule="valid queries from a typed generator (1-4 columns incl. functions/arithmetic, root options, WHERE with all operator kinds, brackets, GROUP BY (directly after the root options and after WHERE), ORDER BY, LIMIT, INTO) x renderings: split at every whitespace, random split sets (keeping the search root alone in its argument, see F23), EVERY alias of every aliased token one at a time (alias groups read from the regenerated Field / Function / Op / arithmetic tables), a case variant of every word, the other bracket style, optional tokens (select, commas, asc, () after an argument-less function) and random mixtures; the parsed Query of the real parser must be identical to that of the canonical rendering, and (sampled) the binary's output identical. non-trivial = a rendering that differs textually from the canonical one",
         samples=st["samples"], distribution=dict(st["hist"]))
     return ctx.finish(trusted=["the alias groups are the ones the source's own lookup tables define (regenerated on this run); docs/usage.md is compared with them in props/C11.v"])
